@@ -56,7 +56,7 @@ func (p *Program) CheckClause(c *Contract, cl *Clause, pos token.Pos, sc *clause
 	p.checked[cl] = true
 	// rename contract parameter names to the real ones, substitute retN
 	ren := map[string]string{}
-	if sc.decl != nil && !c.NoBody {
+	if sc.decl != nil && c != nil && !c.NoBody {
 		var real []string
 		for _, f := range sc.ftype.Params.List {
 			if len(f.Names) == 0 {
@@ -80,7 +80,7 @@ func (p *Program) CheckClause(c *Contract, cl *Clause, pos token.Pos, sc *clause
 	}
 	var resTypes []ast.Expr
 	var resNames []string
-	if sc.ftype.Results != nil {
+	if sc.ftype != nil && sc.ftype.Results != nil {
 		for _, r := range sc.ftype.Results.List {
 			if len(r.Names) == 0 {
 				resTypes = append(resTypes, r.Type)
@@ -116,7 +116,11 @@ func (p *Program) CheckClause(c *Contract, cl *Clause, pos token.Pos, sc *clause
 	cl.Expr = expr
 	err := types.CheckExpr(p.Fset, sc.pkg, pos, expr, p.CInfo)
 	if err != nil {
-		err = fmt.Errorf("%s: contract clause [%s] of %s does not type-check: %v (hint-mismatch)", cl.Line, cl.Label, c.Key, cleanErr(err))
+		key := "axiom"
+		if c != nil {
+			key = c.Key
+		}
+		err = fmt.Errorf("%s: contract clause [%s] of %s does not type-check: %v (hint-mismatch)", cl.Line, cl.Label, key, cleanErr(err))
 	}
 	p.checkErr[cl] = err
 	return err
@@ -404,6 +408,17 @@ func (e *Exec) evalGhostBuiltin(st *State, call *ast.CallExpr, name string) Term
 		}
 		e.unsupported(call.Pos(), "__dyn: unknown dynamic type %s", want)
 		return True
+	case "__upd":
+		m := e.eval(st, call.Args[0])
+		k := e.eval(st, call.Args[1])
+		v := e.eval(st, call.Args[2])
+		return e.S.MkVM(m.Sort, Store(e.S.VMDom(m), k, True), Store(e.S.VMVal(m), k, v))
+	case "__del":
+		m := e.eval(st, call.Args[0])
+		k := e.eval(st, call.Args[1])
+		return e.S.MkVM(m.Sort, Store(e.S.VMDom(m), k, False), e.S.VMVal(m))
+	case "__emptymap":
+		return e.S.Zero(e.S.SortOf(e.typeOf(call)))
 	case "__unchanged":
 		old := e.specOld
 		if old == nil {
@@ -429,16 +444,32 @@ func (e *Exec) evalUnboxed(st *State, x ast.Expr) Term { return e.eval(st, x) }
 // evalSet evaluates a set-valued ghost expression (__dom(m), or a map used as a set of its keys).
 func (e *Exec) evalSet(st *State, x ast.Expr) Term {
 	if c, ok := x.(*ast.CallExpr); ok {
-		if id, ok := c.Fun.(*ast.Ident); ok && (id.Name == "__dom" || id.Name == "__old") {
+		if id, ok := c.Fun.(*ast.Ident); ok && id.Name == "__dom" {
 			return e.eval(st, x)
+		}
+		if id, ok := c.Fun.(*ast.Ident); ok && id.Name == "__old" {
+			old := e.specOld
+			if old == nil {
+				old = e.old
+			}
+			sub := old.Clone()
+			sub.PC = st.PC
+			return e.evalSet(sub, c.Args[0])
 		}
 	}
 	t := e.typeOf(x)
+	if _, ok := isGmap(t); ok {
+		return e.S.VMDom(e.eval(st, x))
+	}
 	if mt, ok := t.Underlying().(*types.Map); ok {
 		m := e.eval(st, x)
 		return Select(e.heapGet(st, e.mapKey(mt).dom), m)
 	}
-	return e.eval(st, x)
+	v := e.eval(st, x)
+	if strings.HasPrefix(v.Sort, "VM_") {
+		return e.S.VMDom(v)
+	}
+	return v
 }
 
 // ---------------------------------------------------------------------------------------------
